@@ -45,10 +45,11 @@ type Exit struct {
 // StepOut is one outcome of an instruction: new abstract state plus an optional fact about the
 // instruction's result (Idx -1: the value itself, else tuple element Idx): Truth 1 = true / non-nil, 0 = false / nil.
 type StepOut struct {
-	A     AState
-	Fact  bool
-	Idx   int
-	Truth int8
+	A       AState
+	Fact    bool
+	Idx     int
+	Truth   int8
+	Descend bool // for calls: continue with the default callee handling from state A
 }
 
 type Hooks struct {
@@ -759,6 +760,12 @@ func (x *Exec) applyOuts(in ssa.Instruction, s *pstate, outs []StepOut) []*pstat
 					k = fmt.Sprintf("%s#%d", v.Name(), o.Idx)
 				}
 				ns.facts[k] = o.Truth
+			}
+		}
+		if o.Descend {
+			if ci, ok := in.(ssa.CallInstruction); ok {
+				res = append(res, x.callDefault(ci, ns)...)
+				continue
 			}
 		}
 		res = append(res, ns)
